@@ -81,14 +81,27 @@ LenUses ==
   { <<NRoot, NFilter(NUn("exists", At(<<NAny(0, -1), NKey(KX)>>))), NKey(KM)>>,       \* strict: .m must still fail
     <<NRoot, NFilter(NBin("eq", At(<<NAny(0, -1), NKey(KA)>>), Lit(1))), NKey(KM)>>,
     <<NRoot, NIdx(<<Sub1(<<NRoot, NKey(KB), NAny(1, 1), NKey(KB)>>)>>), NKey(KM)>> }
-CtxPaths == SetToSeq(LastUses \cup CurUses \cup LenUses)
+(* the outer @ read by a subscript that follows a nested filter; .keyvalue() pairs fed to steps that fail on one of them *)
+KVal == <<118,97,108,117,101>>
+MoreUses ==
+  { <<NRoot, NKey(KB), NAnyArr, NFilter(NBin("eq", <<NCur, NKey(KA), NFilter(NBin("gt", At(<<NMethod("size")>>), Lit(0))), NIdx(<<Sub1(At(<<NKey(KB)>>))>>)>>, Lit(8)))>>,
+    <<NRoot, NKey(KB), NAnyArr, NFilter(NBin("eq", <<NCur, NKey(KA), NFilter(NUn("exists", At(<<>>))), NIdx(<<Sub1(At(<<NKey(KB)>>))>>)>>, Lit(7)))>>,
+    <<NRoot, NKey(KA), NMethod("keyvalue"), NKey(KVal), NMethod("integer")>>,
+    <<NRoot, NKey(KA), NMethod("keyvalue"), NKey(KVal), NMethod("double"), NMethod("string")>>,
+    <<NRoot, NFilter(NBin("gt", At(<<NKey(KA), NMethod("keyvalue"), NKey(KVal), NMethod("integer")>>), Lit(2)))>>,
+    <<NRoot, NFilter(NUn("exists", At(<<NKey(KA), NMethod("keyvalue"), NKey(KVal), NMethod("integer")>>))), NKey(KB)>> }
+CtxPaths == SetToSeq(LastUses \cup CurUses \cup LenUses \cup MoreUses)
 Row(x) == VObj(<<[k |-> KA, v |-> VArr(x)], [k |-> KB, v |-> VFlt(1)]>>)
 CtxDocs == SetToSeq(
   { VObj(<<[k |-> KA, v |-> a], [k |-> KB, v |-> b]>>) :
       a \in { VArr(<<VObj(<<[k |-> KX, v |-> VFlt(1)]>>)>>), VArr(<<VFlt(1)>>), VArr(<<VFlt(0), VFlt(1)>>), VArr(<<>>), VFlt(1) },
       b \in { VArr(<<VFlt(10), VFlt(20), VFlt(30), VFlt(40)>>), VArr(<<VFlt(10)>>),
               VArr(<<Row(<<VFlt(2)>>), Row(<<VFlt(0)>>), VObj(<<[k |-> KA, v |-> VArr(<<VFlt(5)>>)], [k |-> KB, v |-> VFlt(2)]>>)>>),
-              VArr(<<VArr(<<VFlt(1)>>), VArr(<<VFlt(2), VFlt(1)>>)>>), VFlt(1) } } )
+              VArr(<<VArr(<<VFlt(1)>>), VArr(<<VFlt(2), VFlt(1)>>)>>), VFlt(1) } }
+  \cup { VObj(<<[k |-> KA, v |-> VFlt(1)], [k |-> KB, v |-> VArr(<<VObj(<<[k |-> KA, v |-> VArr(<<VFlt(7), VFlt(8)>>)], [k |-> KB, v |-> VFlt(1)]>>),
+                                                              VObj(<<[k |-> KA, v |-> VArr(<<VFlt(7), VFlt(8)>>)], [k |-> KB, v |-> VFlt(0)]>>)>>)]>>) }
+  \cup { VObj(<<[k |-> KA, v |-> VObj(<<[k |-> KA, v |-> x], [k |-> KB, v |-> y], [k |-> KC, v |-> z]>>)], [k |-> KB, v |-> VFlt(1)]>>) :
+            x \in {VStr(<<49>>), VStr(KX)}, y \in {VStr(<<50>>), VStr(KX)}, z \in {VStr(<<51>>), VStr(KX)} } )
 ASSUME ndJsonSerialize("paths.ndjson", [i \in 1..Len(CtxPaths) |-> [pred |-> FALSE, chain |-> CtxPaths[i]]])
 ASSUME ndJsonSerialize("ctxdocs.ndjson", [i \in 1..Len(CtxDocs) |-> [doc |-> CtxDocs[i]]])
 ASSUME PrintT(<<"UNIVERSE", Len(ChainSeq), Len(DocSeq), Len(CtxPaths), Len(CtxDocs)>>)
